@@ -1,4 +1,4 @@
-import SlVerif.Proofs.PprfAll
+import SlVerif.Proofs.PprfTamper
 /-
   C06 — all-but-one PPRF (crates/sl-oblivious/src/soft_spoken/all_but_one.rs), theorems about the model
   `SlVerif.Pprf` at `m := Id` for an ARBITRARY pure oracle `h` (merlin is not assumed to be anything: the positive
@@ -13,9 +13,6 @@ structure BaseOT (keys : List (Bytes × Bytes)) (bits : Bytes) (dks : List Bytes
   len : ∀ i < Generated.LAMBDA_C, (keys.getD i ([], [])).1.length = KB ∧ (keys.getD i ([], [])).2.length = KB
   cons : ∀ i < Generated.LAMBDA_C, dks.getD i [] = sel (extractBit bits i) (keys.getD i ([], []))
 
-theorem extractBit_le (bits : Bytes) (i : Nat) : extractBit bits i ≤ 1 := by
-  unfold extractBit; omega
-
 theorem baseOT_tree {keys : List (Bytes × Bytes)} {bits : Bytes} {dks : List Bytes} (hb : BaseOT keys bits dks)
     (j : Nat) (hj : j < NT) : Consistent (treeKeys keys j) (treeBit bits j) (treeDk dks j) := by
   intro i hi
@@ -27,10 +24,6 @@ theorem baseOT_tree {keys : List (Bytes × Bytes)} {bits : Bytes} {dks : List By
   exact ⟨extractBit_le _ _, (hb.len _ hlt).1, (hb.len _ hlt).2, hb.cons _ hlt⟩
 
 variable (h : Query → Bytes) (sid : Bytes)
-
-/-- per-tree result of the receiver on the honest message (total function used to name the results) -/
-def recvTree (bits : Bytes) (dks : List Bytes) (keys : List (Bytes × Bytes)) (j : Nat) : Nat × List Bytes :=
-  (evalTree (m := Id) h sid (treeBit bits j) (treeDk dks j) (buildTree (m := Id) h sid (treeKeys keys j)).2).getD (0, [])
 
 /-- **C06, first sentence.**  From consistent base-OT outputs, for every session id and every behaviour of the hash:
     `eval_pprf` accepts the message of `build_pprf`; for each of the 64 trees `random_choices[j]` is
@@ -86,36 +79,6 @@ theorem punctured_slot (keys : List (Bytes × Bytes)) (bits : Bytes) (dks : List
   obtain ⟨ystar, sstar, _, h1, _, _, _, _, _, _, h2⟩ := hall j hj
   exact ⟨ystar, sstar, h1, h2⟩
 
-/-- results of accepted trees, for ANY message -/
-theorem evalTrees_ok_inv (bits : Bytes) (dks : List Bytes) :
-    ∀ (l : List (Nat × TreeMsg)) (r : List (Nat × List Bytes)),
-      evalTrees (m := Id) h sid bits dks l = .ok r →
-      r.length = l.length ∧ ∀ (k : Nat) (p : Nat × TreeMsg), l[k]? = some p →
-        ∃ x, r[k]? = some x ∧ evalTree (m := Id) h sid (treeBit bits p.1) (treeDk dks p.1) p.2 = some x := by
-  intro l
-  induction l with
-  | nil => intro r hr; rw [evalTrees_nil] at hr; cases hr; exact ⟨rfl, by simp⟩
-  | cons p rest ih =>
-    intro r hr
-    obtain ⟨j, msg⟩ := p
-    rw [evalTrees_cons] at hr
-    cases hev : evalTree (m := Id) h sid (treeBit bits j) (treeDk dks j) msg with
-    | none => rw [hev] at hr; cases hr
-    | some x =>
-      rw [hev] at hr
-      simp only at hr
-      cases hrest : evalTrees (m := Id) h sid bits dks rest with
-      | error e => rw [hrest] at hr; cases hr
-      | ok rs =>
-        rw [hrest] at hr
-        cases hr
-        obtain ⟨hl, hall⟩ := ih rs hrest
-        refine ⟨by simp [hl], ?_⟩
-        intro k p hp
-        cases k with
-        | zero => simp at hp; subst hp; exact ⟨x, by simp, hev⟩
-        | succ k => simp at hp; simpa using hall k p hp
-
 /-- **ystar_lt_q**: for EVERY PPRF message (honest or not) that `eval_pprf` accepts, there are 64 results, every
     `random_choices[j]` is the complemented-path index of tree j's choice bits, it is `< SOFT_SPOKEN_Q`, and
     `otp_dec_keys[j]` has `SOFT_SPOKEN_Q` entries. -/
@@ -130,5 +93,310 @@ theorem ystar_lt_q (bits : Bytes) (dks : List Bytes) (out : List TreeMsg) (r : L
   obtain ⟨⟨y, s⟩, hx, hev⟩ := hall j (j, out.getD j { t := [], sTilda := [], tTilda := [] }) (by simp [hj])
   obtain ⟨hy, hs⟩ := evalTree_ystar h sid _ _ _ y s hev
   exact ⟨s, by rw [hx, hy], ystarOf_lt _ (fun i _ => extractBit_le _ _), hs⟩
+
+/-! ### tampering with the message of one tree (trees are evaluated independently; `evalTrees_err` lifts a rejected
+    tree to a rejected message) -/
+
+/-- **unused_word_tamper_harmless**: the receiver reads, at level i, only the correction word on the side of its
+    choice bit; a message that differs from `msg` only in the OTHER words (in any bits) gives exactly the same
+    verdict and the same leaves — for every message, every oracle. -/
+theorem unused_word_tamper_harmless (bit : Nat → Nat) (dk : Nat → Bytes) (msg msg' : TreeMsg)
+    (hs : msg'.sTilda = msg.sTilda) (ht : msg'.tTilda = msg.tTilda)
+    (hw : ∀ k < K - 1, sel (bit (k+1)) (msg'.t.getD k ([], [])) = sel (bit (k+1)) (msg.t.getD k ([], []))) :
+    evalTree (m := Id) h sid bit dk msg' = evalTree (m := Id) h sid bit dk msg := by
+  have hl : ∀ (y : Nat) (s : List Bytes), evalLevels (m := Id) h sid bit dk levels msg'.t y s
+      = evalLevels (m := Id) h sid bit dk levels msg.t y s := by
+    intro y s
+    apply evalLevels_congr
+    intro k hk
+    rw [levels_eq] at hk ⊢
+    have := hw k hk
+    match k, hk with
+    | 0, _ => exact this
+    | 1, _ => exact this
+    | 2, _ => exact this
+  rw [evalTree_id, evalTree_id, hs, ht, hl]
+
+/-- single-bit (or any) corruption `delta` of the word on the side the receiver does not use -/
+theorem unused_word_bitflip_harmless (bit : Nat → Nat) (dk : Nat → Bytes) (msg : TreeMsg) (level side : Nat) (delta : Bytes)
+    (hl : 1 ≤ level) (hside : side ≤ 1) (hbit : bit level ≤ 1) (hne : side ≠ bit level) :
+    evalTree (m := Id) h sid bit dk { msg with t := corruptWord msg.t level side delta }
+      = evalTree (m := Id) h sid bit dk msg := by
+  refine unused_word_tamper_harmless h sid bit dk msg { msg with t := corruptWord msg.t level side delta } rfl rfl ?_
+  intro k _
+  simp only [corruptWord]
+  rw [List.getD_eq_getElem?_getD, List.getElem?_set]
+  by_cases hk : level - 1 = k
+  · have hlev : level = k + 1 := by omega
+    subst hlev
+    simp only [Nat.add_sub_cancel, if_true]
+    by_cases hin : k < msg.t.length
+    · simp only [hin, if_true, Option.getD_some]
+      have h1 : side = 0 ∨ side = 1 := by omega
+      have h2 : bit (k+1) = 0 ∨ bit (k+1) = 1 := by omega
+      rcases h1 with rfl | rfl <;> rcases h2 with h2 | h2 <;> simp [sel, h2] at hne ⊢
+    · have : msg.t.getD k ([], []) = ([], []) := by
+        simp [List.getD_eq_getElem?_getD, List.getElem?_eq_none (Nat.le_of_not_lt hin)]
+      simp [hin, this]
+  · simp [hk, List.getD_eq_getElem?_getD]
+
+/-- **stilda_tamper_rejected** (unconditional): a message that the receiver accepts is rejected as soon as its
+    `s_tilda` is replaced by anything else — in particular after any single bit flip in `s_tilda`. -/
+theorem stilda_tamper_rejected (bit : Nat → Nat) (dk : Nat → Bytes) (msg : TreeMsg) (x : Bytes)
+    (hacc : (evalTree (m := Id) h sid bit dk msg).isSome) (hx : x ≠ msg.sTilda) :
+    evalTree (m := Id) h sid bit dk { msg with sTilda := x } = none := by
+  rw [evalTree_accept_iff] at hacc
+  rw [evalTree_id]
+  simp only
+  rw [hacc, if_pos (fun e => hx e.symm)]
+
+/-- **ttilda_tamper_rejected_partial**.
+    Full statement: any change of `t_tilda` of an accepted message is rejected.
+    Proved under ONE named hypothesis `hcol`: the final hash does not collide on the two vectors the receiver hashes
+    (original and tampered message; they differ exactly in the slot of the punctured index). `t_tilda` values are 2·LAMBDA_C_BYTES long (the Rust type). -/
+theorem ttilda_tamper_rejected_partial (bit : Nat → Nat) (dk : Nat → Bytes) (msg : TreeMsg) (x : Bytes)
+    (hb : ∀ i < K, bit i ≤ 1) (hlen : msg.tTilda.length = 2 * KB) (hxlen : x.length = 2 * KB)
+    (hacc : (evalTree (m := Id) h sid bit dk msg).isSome) (hx : x ≠ msg.tTilda)
+    (hcol :
+      let e := evalLevels (m := Id) h sid bit dk levels msg.t (evalInit (bit 0) (dk 0)).1 (evalInit (bit 0) (dk 0)).2
+      Hh h sid (vecR h sid e.1 e.2 x) = Hh h sid (vecR h sid e.1 e.2 msg.tTilda) →
+        vecR h sid e.1 e.2 x = vecR h sid e.1 e.2 msg.tTilda) :
+    evalTree (m := Id) h sid bit dk { msg with tTilda := x } = none := by
+  rw [evalTree_accept_iff] at hacc
+  rw [evalTree_id]
+  simp only
+  rw [if_pos]
+  intro e
+  rw [← hacc] at e
+  have hv := hcol e
+  -- the two vectors differ in the punctured slot
+  have hlt : (evalLevels (m := Id) h sid bit dk levels msg.t (evalInit (bit 0) (dk 0)).1 (evalInit (bit 0) (dk 0)).2).1
+      < (evalLevels (m := Id) h sid bit dk levels msg.t (evalInit (bit 0) (dk 0)).1 (evalInit (bit 0) (dk 0)).2).2.length := by
+    rw [evalLevels_fst, evalLevels_length, levels_eq]
+    have := ystarOf_lt bit hb
+    rw [ystarOf_eq, levels_eq] at this
+    have h2 : (evalInit (bit 0) (dk 0)).2.length = 2 := by unfold evalInit; split <;> rfl
+    rw [h2]
+    exact this
+  have hs := congrArg (fun v : List Bytes => v[(evalLevels (m := Id) h sid bit dk levels msg.t (evalInit (bit 0) (dk 0)).1 (evalInit (bit 0) (dk 0)).2).1]?) hv
+  simp only [vecR_slot h sid _ _ _ hlt, Option.some.injEq] at hs
+  apply hx
+  refine othF_inj _ (2*KB) _ _ _ _ ?_ hxlen hlen hs
+  intro y hy
+  rw [List.getD_eq_getElem?_getD, maskAt_getElem?, List.getElem?_map, List.getElem?_eq_getElem hy]
+  simp only [Option.map_some, Option.getD_some]
+  split
+  · exact P_len h sid _
+  · exact zeros_length _
+
+/-- **used_word_tamper_rejected_partial**.
+    Full statement: a change (any bits) of a correction word the receiver DOES read, in an accepted message, is
+    rejected — at every level.
+    Proved for the LAST level (`t[K-2][c]`, `c` the receiver's last choice bit), where the changed word moves exactly
+    one leaf (the sibling of the punctured one), under two named no-collision hypotheses: `hP` — the per-leaf proof
+    hash does not collide between a leaf of the original evaluation and a leaf of the tampered one; `hcol` — the final
+    hash does not collide on the two proof vectors.  For the upper levels the changed node is expanded by the PRG first,
+    so the same argument additionally needs the PRG not to collide on the two seeds; not formalised (the harness
+    flips every bit of every word). -/
+theorem used_word_tamper_rejected_partial (bit : Nat → Nat) (dk : Nat → Bytes) (msg : TreeMsg) (delta : Bytes)
+    (hb : ∀ i < K, bit i ≤ 1) (ht : msg.t.length = K - 1)
+    (hw : (sel (bit 3) (msg.t.getD 2 ([], []))).length = KB) (hdk : (dk 3).length = KB)
+    (hdl : delta.length = KB) (hδ : delta ≠ zeros KB)
+    (hacc : (evalTree (m := Id) h sid bit dk msg).isSome)
+    (hP : ∀ a ∈ (evalLevels (m := Id) h sid bit dk levels msg.t (evalInit (bit 0) (dk 0)).1 (evalInit (bit 0) (dk 0)).2).2,
+      ∀ b ∈ (evalLevels (m := Id) h sid bit dk levels (corruptWord msg.t 3 (bit 3) delta) (evalInit (bit 0) (dk 0)).1 (evalInit (bit 0) (dk 0)).2).2,
+      P h sid a = P h sid b → a = b)
+    (hcol :
+      let e := evalLevels (m := Id) h sid bit dk levels msg.t (evalInit (bit 0) (dk 0)).1 (evalInit (bit 0) (dk 0)).2
+      let e' := evalLevels (m := Id) h sid bit dk levels (corruptWord msg.t 3 (bit 3) delta) (evalInit (bit 0) (dk 0)).1 (evalInit (bit 0) (dk 0)).2
+      Hh h sid (vecR h sid e'.1 e'.2 msg.tTilda) = Hh h sid (vecR h sid e.1 e.2 msg.tTilda) →
+        vecR h sid e'.1 e'.2 msg.tTilda = vecR h sid e.1 e.2 msg.tTilda) :
+    evalTree (m := Id) h sid bit dk { msg with t := corruptWord msg.t 3 (bit 3) delta } = none := by
+  -- the three correction words
+  obtain ⟨w1, w2, w3, hws⟩ : ∃ w1 w2 w3, msg.t = [w1, w2, w3] := by
+    match hm : msg.t, ht with
+    | [a, b, c], _ => exact ⟨a, b, c, rfl⟩
+  have hb3 : bit 3 ≤ 1 := hb 3 (by decide)
+  have hx3 := xor_one_le _ hb3
+  rw [hws] at hP hcol hw ⊢
+  have hcw : corruptWord [w1, w2, w3] 3 (bit 3) delta
+      = [w1, w2, if bit 3 = 0 then (xorBytes w3.1 delta, w3.2) else (w3.1, xorBytes w3.2 delta)] := by
+    simp [corruptWord]
+  simp only [List.getD_cons_succ, List.getD_cons_zero] at hw
+  rw [hcw] at hP hcol ⊢
+  rw [evalTree_accept_iff, hws] at hacc
+  -- unfold the three levels on both sides; the first two are identical
+  have hun : ∀ w : Bytes × Bytes, evalLevels (m := Id) h sid bit dk levels [w1, w2, w] (evalInit (bit 0) (dk 0)).1 (evalInit (bit 0) (dk 0)).2
+      = (2 * (evalLevels (m := Id) h sid bit dk [1, 2] [w1, w2] (evalInit (bit 0) (dk 0)).1 (evalInit (bit 0) (dk 0)).2).1 + (1 ^^^ bit 3),
+         stepR h sid (bit 3) w (dk 3)
+          (evalLevels (m := Id) h sid bit dk [1, 2] [w1, w2] (evalInit (bit 0) (dk 0)).1 (evalInit (bit 0) (dk 0)).2).1
+          (evalLevels (m := Id) h sid bit dk [1, 2] [w1, w2] (evalInit (bit 0) (dk 0)).1 (evalInit (bit 0) (dk 0)).2).2) := by
+    intro w
+    rw [levels_eq]
+    simp only [evalLevels_cons, evalLevels_nil, List.headD_cons, List.tail_cons]
+  have hY : (evalLevels (m := Id) h sid bit dk [1, 2] [w1, w2] (evalInit (bit 0) (dk 0)).1 (evalInit (bit 0) (dk 0)).2).1
+      < (evalLevels (m := Id) h sid bit dk [1, 2] [w1, w2] (evalInit (bit 0) (dk 0)).1 (evalInit (bit 0) (dk 0)).2).2.length := by
+    rw [evalLevels_fst, evalLevels_length]
+    have h0 := xor_one_le _ (hb 0 (by decide))
+    have h1 := xor_one_le _ (hb 1 (by decide))
+    have h2 := xor_one_le _ (hb 2 (by decide))
+    have hl : (evalInit (bit 0) (dk 0)).2.length = 2 := by unfold evalInit; split <;> rfl
+    have hf : (evalInit (bit 0) (dk 0)).1 = bit 0 ^^^ 1 := rfl
+    rw [hl, hf, Nat.xor_comm]
+    simp only [List.foldl_cons, List.foldl_nil, List.length_cons, List.length_nil]
+    omega
+  rw [hun] at hP hcol hacc
+  rw [hun] at hP hcol
+  rw [evalTree_id]
+  simp only
+  rw [hun, if_pos]
+  generalize (evalLevels (m := Id) h sid bit dk [1, 2] [w1, w2] (evalInit (bit 0) (dk 0)).1 (evalInit (bit 0) (dk 0)).2).1 = Y
+    at hP hcol hacc hY ⊢
+  generalize (evalLevels (m := Id) h sid bit dk [1, 2] [w1, w2] (evalInit (bit 0) (dk 0)).1 (evalInit (bit 0) (dk 0)).2).2 = S
+    at hP hcol hacc hY ⊢
+  simp only at hP hcol hacc ⊢
+  intro e
+  rw [← hacc] at e
+  have hv := hcol e
+  -- compare the two proof vectors at the sibling of the punctured leaf
+  have hzne : 2 * Y + bit 3 ≠ 2 * Y + (1 ^^^ bit 3) := by omega
+  have hs := congrArg (fun v : List Bytes => v[2 * Y + bit 3]?) hv
+  simp only [vecR_getElem?_ne h sid _ _ _ _ hzne, List.getElem?_map, stepR_corr h sid _ _ _ _ _ hY hb3, Option.map_some,
+    Option.some.injEq] at hs
+  rw [sel_corrupt _ hb3, corrOf_xor] at hs
+  have hmem1 : corrOf h sid (bit 3) (sel (bit 3) w3) (dk 3) Y S ∈ stepR h sid (bit 3) w3 (dk 3) Y S :=
+    List.mem_of_getElem? (stepR_corr h sid _ _ _ _ _ hY hb3)
+  have hmem2 : xorBytes delta (corrOf h sid (bit 3) (sel (bit 3) w3) (dk 3) Y S)
+      ∈ stepR h sid (bit 3) (if bit 3 = 0 then (xorBytes w3.1 delta, w3.2) else (w3.1, xorBytes w3.2 delta)) (dk 3) Y S := by
+    have := stepR_corr h sid (bit 3) (if bit 3 = 0 then (xorBytes w3.1 delta, w3.2) else (w3.1, xorBytes w3.2 delta)) (dk 3) Y S hY hb3
+    rw [sel_corrupt _ hb3, corrOf_xor] at this
+    exact List.mem_of_getElem? this
+  have heq := hP _ hmem1 _ hmem2 hs.symm
+  have hcl := corrOf_length h sid (bit 3) (sel (bit 3) w3) (dk 3) Y S hw hdk
+  exact xor_delta_ne delta _ (by rw [hdl, hcl]) (by rw [hcl]; exact hδ) heq.symm
+
+/-- **selective_failure_partial** (the "accepted" direction, unconditional in the hashes).
+    Full statement (checked exhaustively by the harness grid, see `Pprf.advAccepts`): the message of `advTree` —
+    wrong correction word `t[level-1][side]`, `t_tilda`/`s_tilda` re-derived for a guessed receiver path — is accepted
+    IFF the guess is right in the sense of `advAccepts`.  Proved: it IS accepted by the receiver whose choice bits are
+    the guess (any keys, any level/side/delta, any oracle), and that receiver reports the guessed punctured index.
+    The "only if" direction needs collision-freeness of all three hashes and is not formalised. -/
+theorem selective_failure_partial (keys : Nat → Bytes × Bytes) (level side : Nat) (delta : Bytes) (guess : Nat → Nat)
+    (hg : ∀ i < K, guess i ≤ 1) :
+    ∃ s, evalTree (m := Id) h sid guess (fun i => sel (guess i) (keys i))
+        (advTree (m := Id) h sid keys level side delta guess) = some (ystarOf guess, s) := by
+  have key : ∀ (e : Nat × List Bytes) (x : Bytes), e.1 < e.2.length →
+      Hh h sid (vecR h sid e.1 e.2 (((e.2.set e.1 x).map (P h sid)).foldl xorBytes (zeros (2*KB))))
+        = Hh h sid ((e.2.set e.1 x).map (P h sid)) := by
+    intro e x hlt
+    rw [vecR_eq' h sid (e.2.set e.1 x) e.2 e.1 (by simp) (by simpa using hlt)
+      (by intro y hy; rw [List.getElem?_set, if_neg (fun e' => hy (Eq.symm e'))])]
+  have hlt : ∀ ws, (evalLevels (m := Id) h sid guess (fun i => sel (guess i) (keys i)) levels ws
+        (evalInit (guess 0) (sel (guess 0) (keys 0))).1 (evalInit (guess 0) (sel (guess 0) (keys 0))).2).1
+      < (evalLevels (m := Id) h sid guess (fun i => sel (guess i) (keys i)) levels ws
+        (evalInit (guess 0) (sel (guess 0) (keys 0))).1 (evalInit (guess 0) (sel (guess 0) (keys 0))).2).2.length := by
+    intro ws
+    rw [evalLevels_fst, evalLevels_length, levels_eq]
+    have := ystarOf_lt guess hg
+    rw [ystarOf_eq, levels_eq] at this
+    have h2 : (evalInit (guess 0) (sel (guess 0) (keys 0))).2.length = 2 := by unfold evalInit; split <;> rfl
+    rw [h2]
+    exact this
+  have hE := hlt (corruptWord (buildTree (m := Id) h sid keys).2.t level side delta)
+  have hsome : (evalTree (m := Id) h sid guess (fun i => sel (guess i) (keys i))
+      (advTree (m := Id) h sid keys level side delta guess)).isSome := by
+    rw [evalTree_accept_iff, advTree_id]
+    simp only
+    generalize evalLevels (m := Id) h sid guess (fun i => sel (guess i) (keys i)) levels
+      (corruptWord (buildTree (m := Id) h sid keys).2.t level side delta)
+      (evalInit (guess 0) (sel (guess 0) (keys 0))).1 (evalInit (guess 0) (sel (guess 0) (keys 0))).2 = e at hE ⊢
+    exact key e _ hE
+  obtain ⟨⟨y, s⟩, hys⟩ := Option.isSome_iff_exists.mp hsome
+  obtain ⟨hy, _⟩ := evalTree_ystar h sid _ _ _ y s hys
+  exact ⟨s, by rw [hys, hy]⟩
+
+/-! ### non-vacuity -/
+
+/-- a toy hash: one byte, the sum of all message bytes of the transcript (so it depends on seeds, leaves and sid) -/
+def dataSum : List TOp → Nat
+  | [] => 0
+  | .msg _ d :: r => d.sum + dataSum r
+  | _ :: r => dataSum r
+def toyH : Query → Bytes
+  | .merlin t => [dataSum t.ops % 256]
+  | _ => []
+
+def toyKeys : List (Bytes × Bytes) := (List.range 256).map fun i => (List.replicate 32 (i % 7), List.replicate 32 (i % 5 + 10))
+def toyBits : Bytes := List.replicate 32 0x5a
+def toyDks : List Bytes := (List.range 256).map fun i => sel (extractBit toyBits i) (toyKeys.getD i ([], []))
+
+theorem toyBase : BaseOT toyKeys toyBits toyDks := by
+  constructor
+  · intro i hi
+    have hi' : i < 256 := hi
+    simp [toyKeys, List.getD_eq_getElem?_getD, hi']
+    rfl
+  · intro i hi
+    have hi' : i < 256 := hi
+    simp [toyDks, List.getD_eq_getElem?_getD, hi']
+
+/-- `main`, `punctured_slot`, `ystar_lt_q`: consistent base-OT outputs exist, so an accepted message exists -/
+example : ∃ r, evalPprf (m := Id) toyH [1, 2, 3] toyBits toyDks (buildPprf (m := Id) toyH [1, 2, 3] toyKeys).2 = .ok r ∧
+    r.length = NT := by
+  obtain ⟨r, hr, hl, _⟩ := main toyH [1, 2, 3] toyKeys toyBits toyDks toyBase
+  exact ⟨r, hr, hl⟩
+
+def toyTreeKeys : Nat → Bytes × Bytes := fun i => (List.replicate 32 (i + 1), List.replicate 32 (i + 9))
+def toyBit : Nat → Nat := fun i => i % 2
+def toyDk : Nat → Bytes := fun i => sel (toyBit i) (toyTreeKeys i)
+
+theorem toyConsistent : Consistent toyTreeKeys toyBit toyDk := by
+  intro i hi
+  have : i < 4 := hi
+  refine ⟨by unfold toyBit; omega, by simp [toyTreeKeys]; rfl, by simp [toyTreeKeys]; rfl, rfl⟩
+
+/-- the statement about the punctured slot has content: with the toy hash the sender's leaf at the receiver's
+    punctured index (10 for choice bits 0,1,0,1) is not the all-zero string the receiver holds there -/
+example : ystarOf toyBit = 10 ∧ (buildTree (m := Id) toyH [7] toyTreeKeys).1.getD 10 [] ≠ zeros KB := by decide
+
+/-- `unused_word_tamper_harmless`: two different messages that agree on the words the receiver reads -/
+example : evalTree (m := Id) toyH [] (fun _ => 0) (fun _ => [])
+      { t := [([1], [2]), ([3], [4]), ([5], [6])], sTilda := [], tTilda := [] }
+    = evalTree (m := Id) toyH [] (fun _ => 0) (fun _ => [])
+      { t := [([1], [9]), ([3], [8]), ([5], [7])], sTilda := [], tTilda := [] } :=
+  unused_word_tamper_harmless toyH [] _ _ _ _ rfl rfl (by decide)
+
+example : evalTree (m := Id) toyH [] toyBit toyDk
+      { (buildTree (m := Id) toyH [] toyTreeKeys).2 with
+        t := corruptWord (buildTree (m := Id) toyH [] toyTreeKeys).2.t 2 1 [0, 0, 128] }
+    = evalTree (m := Id) toyH [] toyBit toyDk (buildTree (m := Id) toyH [] toyTreeKeys).2 :=
+  unused_word_bitflip_harmless toyH [] toyBit toyDk _ 2 1 _ (by decide) (by decide) (by decide) (by decide)
+
+theorem toyAccepted : (evalTree (m := Id) toyH [] toyBit toyDk (buildTree (m := Id) toyH [] toyTreeKeys).2).isSome := by
+  obtain ⟨s, hs, _⟩ := tree_correct toyH [] toyTreeKeys toyBit toyDk toyConsistent
+  rw [hs]; rfl
+
+/-- `stilda_tamper_rejected`: an accepted message exists and `s_tilda` can be changed -/
+example : evalTree (m := Id) toyH [] toyBit toyDk { (buildTree (m := Id) toyH [] toyTreeKeys).2 with sTilda := [] } = none :=
+  stilda_tamper_rejected toyH [] toyBit toyDk _ [] toyAccepted (by decide)
+
+/-- `ttilda_tamper_rejected_partial`: all hypotheses hold for the toy hash and a flipped bit of `t_tilda` -/
+example : evalTree (m := Id) toyH [] toyBit toyDk
+    { (buildTree (m := Id) toyH [] toyTreeKeys).2 with
+      tTilda := flipBit (buildTree (m := Id) toyH [] toyTreeKeys).2.tTilda 3 } = none :=
+  ttilda_tamper_rejected_partial toyH [] toyBit toyDk _ _ (by decide) (by decide) (by decide) toyAccepted (by decide)
+    (by decide)
+
+/-- `used_word_tamper_rejected_partial`: all hypotheses hold for the toy hash and a flipped bit of the last used word -/
+example : evalTree (m := Id) toyH [] toyBit toyDk
+    { (buildTree (m := Id) toyH [] toyTreeKeys).2 with
+      t := corruptWord (buildTree (m := Id) toyH [] toyTreeKeys).2.t 3 (toyBit 3) (1 :: List.replicate 31 0) } = none :=
+  used_word_tamper_rejected_partial toyH [] toyBit toyDk _ _ (by decide) (by decide) (by decide) (by decide) (by decide)
+    (by decide) toyAccepted (by decide) (by decide)
+
+/-- `selective_failure_partial`: the adversarial message for the guess 1,0,1,0 with a wrong word at level 2, side 0 -/
+example : ∃ s, evalTree (m := Id) toyH [5] (fun i => (i + 1) % 2) (fun i => sel ((i + 1) % 2) (toyTreeKeys i))
+    (advTree (m := Id) toyH [5] toyTreeKeys 2 0 (List.replicate 32 255) (fun i => (i + 1) % 2)) = some (5, s) :=
+  selective_failure_partial toyH [5] toyTreeKeys 2 0 _ _ (by intro i _; omega)
 
 end SlVerif.C06
